@@ -134,6 +134,13 @@ pub fn valid_variants(rule: &str) -> Vec<Value> {
             obj(&[("current", json!({"name": "path", "sources": {"pkg": "./lib"}})), ("target", json!({"name": "luau", "aliases": {"pkg": "./lib"}}))]),
             obj(&[("current", json!({"name": "path", "use_luau_configuration": false})), ("target", json!({"name": "luau", "use_luau_configuration": false}))]),
             obj(&[("current", json!("path")), ("target", json!({"name": "path", "module_folder_name": "index"}))]),
+            // the roblox target: every indexing style, as a string and as an object, with and without a sourcemap
+            obj(&[("current", json!("path")), ("target", json!("roblox"))]),
+            obj(&[("current", json!("path")), ("target", json!({"name": "roblox", "indexing_style": "property"}))]),
+            obj(&[("current", json!("path")), ("target", json!({"name": "roblox", "indexing_style": "wait_for_child"}))]),
+            obj(&[("current", json!("path")), ("target", json!({"name": "roblox", "indexing_style": {"name": "find_first_child"}}))]),
+            obj(&[("current", json!("path")), ("target", json!({"name": "roblox", "rojo_sourcemap": "./sourcemap.json", "indexing_style": {"name": "property"}}))]),
+            obj(&[("current", json!("luau")), ("target", json!({"name": "roblox", "rojo_sourcemap": "./sourcemap.json"}))]),
         ],
         _ => vec![obj(&[])],
     }
